@@ -1375,4 +1375,106 @@ theorem C12_get_for_hoy_index_counterexample :
     getForHoyIndex (stepHoy 15 131069 * 15) = 131069 := by
   decide +kernel
 
+/-! ### Round 6: range bounds of the sub-period, the three-hour lag, year-sized files -/
+
+/-- **The days a source holds include its own first and last day** (both bounds of the range are closed), for plain sources and
+    for sources that wrap the year end. -/
+theorem C12_subset_boundary_days_inside (src : AP) (h : src.isReversed = true ∨ src.stTime.doy ≤ src.endTime.doy) :
+    dayInside src src.stTime.doy = true ∧ dayInside src src.endTime.doy = true := by
+  unfold dayInside
+  rcases h with h | h
+  · simp [h]
+  · cases hr : src.isReversed <;> simp [h]
+
+/-- **A day is replaced by the source's own first (last) day only if it lies strictly outside the days the source holds**: the
+    first and the last day of the source, and every day between them, are never "outside" - for a wrapping source only the days
+    strictly between its last and its first day are. -/
+theorem C12_subset_outside_iff (src : AP) (d : Nat) (hdays : src.isReversed = true → src.endTime.doy < src.stTime.doy) :
+    (stOutside src d = true → dayInside src d = false) ∧ (endOutside src d = true → dayInside src d = false) ∧
+    (dayInside src d = false → src.isReversed = true → stOutside src d = true ∧ endOutside src d = true) := by
+  unfold stOutside endOutside dayInside
+  cases hr : src.isReversed
+  · simp
+    omega
+  · have := hdays hr
+    simp
+    omega
+
+/-- **A request whose first and last day lie on days the source holds, and whose hours lie in the source's window, is the period
+    the collection is filtered with** - unchanged, in particular when it starts (or ends) exactly on the source's last (first)
+    day: `Wea.filter_by_analysis_period` then selects the steps of the request, not a widened slice. -/
+theorem C12_subset_inside_identity (src req : AP) (hs : dayInside src req.stTime.doy = true)
+    (he : dayInside src req.endTime.doy = true) (hh1 : src.st_hour ≤ req.st_hour) (hh2 : req.end_hour ≤ src.end_hour) :
+    subsetAP src req = req := by
+  have so : stOutside src req.stTime.doy = false := by
+    unfold stOutside; unfold dayInside at hs
+    cases hr : src.isReversed
+    · simp [hr] at hs ⊢; omega
+    · simp [hr] at hs ⊢; omega
+  have eo : endOutside src req.endTime.doy = false := by
+    unfold endOutside; unfold dayInside at he
+    cases hr : src.isReversed
+    · simp [hr] at he ⊢; omega
+    · simp [hr] at he ⊢; omega
+  unfold subsetAP
+  split
+  · rfl
+  · simp only [so, eo]
+    have h1 : ¬ req.st_hour < src.st_hour := by omega
+    have h2 : ¬ src.end_hour < req.end_hour := by omega
+    simp [h1, h2]
+
+/-- Non-vacuity / the rare case by name: the winter slice 21 Dec - 21 Mar filtered by its own last day. -/
+example : subsetAP ⟨12, 21, 0, 3, 21, 23, 1, false⟩ ⟨3, 21, 0, 3, 21, 23, 1, false⟩ = ⟨3, 21, 0, 3, 21, 23, 1, false⟩ :=
+  C12_subset_inside_identity _ _ (by decide +kernel) (by decide +kernel) (by decide) (by decide)
+
+/-- **Three hours before step `count` is `3 * timestep` positions back**: on a time axis with `timestep` steps per hour (minute of
+    step i = 60 * i / timestep from the first step, theorem `C12_wholeDay_steps`), the position `from_zhang_huang_solar` reads the
+    earlier dry bulb temperature from is `count - 3 * timestep`, and that step lies exactly 180 minutes before step `count`. -/
+theorem C12_zh_lag_three_hours (ts : Nat) (hts : ts ∈ Gen.Ap.validTimesteps) (n count : Nat) (h1 : 3 * ts ≤ count) (h2 : count < n) :
+    ∃ k, zhLagIndex ts n count = some k ∧ k + 3 * ts = count ∧ 60 * k / ts + 180 = 60 * count / ts := by
+  refine ⟨count - 3 * ts, ?_, by omega, ?_⟩
+  · unfold zhLagIndex
+    rw [if_pos h1, if_pos (by omega)]
+  · rw [ts_div ts hts, ts_div ts hts]
+    rcases AP.ts_cases hts with e | e | e | e | e | e | e | e | e | e | e | e <;> subst e <;> omega
+
+/-- **A lag of three POSITIONS is three hours only for hourly data**: for every other valid timestep the step three positions back
+    is less than 180 minutes earlier (the unit of the lag matters as soon as the data is sub-hourly). -/
+theorem C12_zh_lag_positions_vs_hours (ts : Nat) (hts : ts ∈ Gen.Ap.validTimesteps) (count : Nat) (h : 3 ≤ count) :
+    60 * (count - 3) / ts + 180 = 60 * count / ts ↔ ts = 1 := by
+  rw [ts_div ts hts, ts_div ts hts]
+  rcases AP.ts_cases hts with e | e | e | e | e | e | e | e | e | e | e | e <;> subst e <;> omega
+
+/-- At the start of the series the index is negative for Python and counts from the end: the first `3 * timestep` steps read the
+    LAST `3 * timestep` values (wrap-around of the series, as the code does it). -/
+theorem C12_zh_lag_wraps_at_start (ts n count : Nat) (h1 : count < 3 * ts) (h2 : 3 * ts ≤ n) :
+    zhLagIndex ts n count = some (n + count - 3 * ts) := by
+  unfold zhLagIndex
+  rw [if_neg (by omega), if_pos (by omega)]
+  congr 1
+  omega
+
+/-- **A file that holds exactly one year of rows is read by its rows, not by its size**: written from a whole-day period of any
+    first day - also one that wraps the year end and has as many steps as the year, e.g. 1 Jul - 30 Jun - the file reads back as
+    the continuous Wea over THAT period (first datetime = first row); it is the 1 Jan - 31 Dec Wea only if the period is the
+    annual one.  (Corollary of `C12_file_roundtrip_continuous`, stated for the year-sized case.) -/
+theorem C12_file_year_sized_by_rows (prod60 : Nat → Rat) (ap : AP) (hwf : ap.WF)
+    (h0 : ap.st_hour = 0) (h23 : ap.end_hour = 23) (hlen : ap.len = hoursInYear ap.leap * ap.timestep)
+    (dni dhi : List Rat) (w : W Rat) (hw : mkCont ap dni dhi = .ok w) :
+    ∃ lines r, toLines w = .ok lines ∧ lines.length = hoursInYear ap.leap * ap.timestep ∧
+      fromFile prod60 (ap.timestep : Int) ap.leap lines = .ok r ∧ r.ap = ap ∧ r.dts = contDts ap ∧
+      (r.ap = AP.annual ap.leap ap.timestep → (ap.st_month = 1 ∧ ap.st_day = 1)) := by
+  obtain ⟨lines, a, b, c⟩ := C12_file_roundtrip_continuous prod60 ap hwf h0 h23 dni dhi w.onHour w hw
+  refine ⟨lines, _, ?_, by rw [b, hlen], c, rfl, rfl, ?_⟩
+  · simpa using a
+  · intro h
+    have h' : ap = AP.annual ap.leap ap.timestep := h
+    rw [h']
+    exact ⟨rfl, rfl⟩
+
+/-- Non-vacuity: 1 Jul - 30 Jun has the 8760 steps of the year and is not the annual period. -/
+example : (⟨7, 1, 0, 6, 30, 23, 1, false⟩ : AP).len = hoursInYear false * 1 ∧ (⟨7, 1, 0, 6, 30, 23, 1, false⟩ : AP).WF := by
+  decide +kernel
+
 end Wea
